@@ -131,8 +131,6 @@ theorem sortDesc_asc : ∀ (asc small : List Atom), asc.Pairwise (fun x y => x.n
 
 /-! ## atoms a dynamic stack invents -/
 
-def freshAtoms' (isW : Bool) (c n : Nat) : List Atom := (List.range' c n).map (Atom.mk isW)
-
 theorem Atom.mk_number (isW : Bool) (n : Nat) : (Atom.mk isW n).number = n := by
   cases isW <;> rfl
 
